@@ -19,14 +19,22 @@ use roto::List;
 /// there, so no preemption is modelled at these sites
 const LOCK_HELD_SITES: [u32; 3] = [13, 16, 19];
 
+/// Site 1 is the schedule point inside `List::get`. On the pinned tree it sat between the element lookup and its
+/// use (no lock held, the pointer already escaped); with the lock held across lookup and clone it can only sit
+/// before the lock acquisition. The linearisation point of `get` relative to site 1 therefore depends on which of
+/// the two the code under test is; the harness asks the code by observing whether site 20 (ErasedList::get's own
+/// lock) is passed before site 1.
+const BEFORE_LOCK_1: bool = true;
+
 static mut SHARED: Option<List<u64>> = None;
 static mut FIRED_AT: u32 = 0; // site at which the preemption happened (0 = never)
+static mut ONLY_SITE: u32 = 0; // the one schedule point at which this harness lets the other thread run (0 = any)
 const PUSHED: [u64; 4] = [0x1111, 0x2222, 0x3333, 0x4444];
 
 /// common part of the other thread: decide (symbolically) whether to preempt here
 fn fire(site: u32) -> Option<&'static List<u64>> {
     unsafe {
-        if FIRED_AT != 0 || LOCK_HELD_SITES.contains(&site) {
+        if FIRED_AT != 0 || LOCK_HELD_SITES.contains(&site) || (ONLY_SITE != 0 && site != ONLY_SITE) {
             return None;
         }
         let fire: bool = any();
@@ -69,6 +77,18 @@ fn other_clone_drop(site: u32) {
 }
 
 fn setup(other: fn(u32), n_init: usize) -> (List<u64>, [u64; 2]) {
+    setup_at(other, n_init, 0)
+}
+
+fn done() -> u32 {
+    // the operation under test is over: no more preemption while the postconditions are evaluated
+    unsafe {
+        YIELD_HOOK = None;
+        FIRED_AT
+    }
+}
+
+fn setup_at(other: fn(u32), n_init: usize, only_site: u32) -> (List<u64>, [u64; 2]) {
     let l: List<u64> = List::new();
     let m: [u64; 2] = any();
     if n_init >= 1 {
@@ -79,6 +99,7 @@ fn setup(other: fn(u32), n_init: usize) -> (List<u64>, [u64; 2]) {
     }
     unsafe {
         FIRED_AT = 0;
+        ONLY_SITE = only_site;
         SHARED = Some(l.clone());
         YIELD_HOOK = Some(other);
     }
@@ -95,38 +116,50 @@ fn teardown(l: List<u64>) {
 }
 
 /// Rust-side `get(0)` on a 1-element list while another thread pushes 4
-/// elements (reallocation): the element read must be the element stored, and
-/// no access may go through the old buffer.
-#[cfg_attr(kani, kani::proof)]
-#[cfg_attr(kani, kani::unwind(8))]
-#[cfg_attr(kani, kani::stub(std::sync::Mutex::lock, crate::stubs::mutex_lock_stub))]
-pub fn c16_get_vs_push4_realloc() {
-    let (l, m) = setup(other_push4, 1);
-    let g = l.get(0);
-    assert!(g == Some(m[0]), "get(0) returned something else than the stored element");
-    cover!(unsafe { FIRED_AT } == 1, "preempted_in_lookup_use_window");
-    cover!(unsafe { FIRED_AT } == 20, "preempted_before_lock");
-    cover!(unsafe { FIRED_AT } == 0, "not_preempted");
-    teardown(l);
+/// elements (reallocation) - preemption between the element lookup and its use
+/// (site 1) or before the lookup's lock (sites 1/20): the element read must be
+/// the element stored, and no access may go through the old buffer.
+macro_rules! get_vs_push4 {
+    ($name:ident, $site:expr) => {
+        #[cfg_attr(kani, kani::proof)]
+        #[cfg_attr(kani, kani::unwind(8))]
+        #[cfg_attr(kani, kani::stub(std::sync::Mutex::lock, crate::stubs::mutex_lock_stub))]
+        pub fn $name() {
+            let (l, m) = setup_at(other_push4, 1, $site);
+            let g = l.get(0);
+            let at = done();
+            assert!(g == Some(m[0]), "get(0) returned something else than the stored element");
+            cover!(at == $site, "preempted");
+            cover!(at == 0, "not_preempted");
+            teardown(l);
+        }
+    };
 }
+get_vs_push4!(c16_get_vs_push4_realloc_site1, 1);
 
-/// script-side `get` (`ffi::list_get`) under the same schedule
-#[cfg_attr(kani, kani::proof)]
-#[cfg_attr(kani, kani::unwind(8))]
-#[cfg_attr(kani, kani::stub(std::sync::Mutex::lock, crate::stubs::mutex_lock_stub))]
-pub fn c16_ffi_get_vs_push4_realloc() {
-    let (l, m) = setup(other_push4, 1);
-    let mut slot = std::mem::MaybeUninit::<RotoOption<u64>>::uninit();
-    unsafe { list_verif::list_get(slot.as_mut_ptr() as *mut u8, &l, 0) };
-    let p = slot.as_ptr() as *const u8;
-    unsafe {
-        assert!(*p == 0, "in-range get must be Some");
-        assert!(std::ptr::read(p.add(8) as *const u64) == m[0], "wrong element");
-    }
-    cover!(unsafe { FIRED_AT } == 11, "preempted_in_lookup_use_window");
-    cover!(unsafe { FIRED_AT } == 0, "not_preempted");
-    teardown(l);
+/// script-side `get` (`ffi::list_get`) under the same schedules
+macro_rules! ffi_get_vs_push4 {
+    ($name:ident, $site:expr) => {
+        #[cfg_attr(kani, kani::proof)]
+        #[cfg_attr(kani, kani::unwind(8))]
+        #[cfg_attr(kani, kani::stub(std::sync::Mutex::lock, crate::stubs::mutex_lock_stub))]
+        pub fn $name() {
+            let (l, m) = setup_at(other_push4, 1, $site);
+            let mut slot = std::mem::MaybeUninit::<RotoOption<u64>>::uninit();
+            unsafe { list_verif::list_get(slot.as_mut_ptr() as *mut u8, &l, 0) };
+            let at = done();
+            let p = slot.as_ptr() as *const u8;
+            unsafe {
+                assert!(*p == 0, "in-range get must be Some");
+                assert!(std::ptr::read(p.add(8) as *const u64) == m[0], "wrong element");
+            }
+            cover!(at == $site, "preempted");
+            cover!(at == 0, "not_preempted");
+            teardown(l);
+        }
+    };
 }
+ffi_get_vs_push4!(c16_ffi_get_vs_push4_realloc_site11, 11);
 
 /// `get(i)` vs one push without reallocation: linearisable (index == old
 /// length sees the pushed element iff the push's critical section came first).
@@ -138,13 +171,13 @@ pub fn c16_get_vs_push1_linearizable() {
     let i: usize = any();
     assume(i <= 3);
     let g = l.get(i);
-    let at = unsafe { FIRED_AT };
+    let at = done();
     let pushed = PUSHED[0];
     if i < 2 {
         assert!(g == Some(m[i]));
     } else if i == 2 {
         // push before the lookup (preempted before get's lock) -> Some(pushed); otherwise None
-        if at == 20 {
+        if at == 20 || at == 1 && BEFORE_LOCK_1 {
             assert!(g == Some(pushed), "push completed before the lookup but is not visible");
         } else {
             assert!(g.is_none(), "get saw an element that was pushed after its lookup");
@@ -153,8 +186,7 @@ pub fn c16_get_vs_push1_linearizable() {
         assert!(g.is_none());
     }
     assert!(l.len() == if at != 0 { 3 } else { 2 });
-    cover!(at == 20 && i == 2, "push_first");
-    cover!(at == 1 && i == 2, "lookup_first");
+    cover!(at != 0 && i == 2, "preempted_at_boundary_index");
     teardown(l);
 }
 
@@ -166,7 +198,7 @@ pub fn c16_push_vs_push4() {
     let (l, m) = setup(other_push4, 1);
     let v: u64 = any();
     l.push(v);
-    let at = unsafe { FIRED_AT };
+    let at = done();
     let n = l.len();
     assert!(n == if at != 0 { 6 } else { 2 }, "a push was lost");
     assert!(l.get(0) == Some(m[0]));
@@ -187,9 +219,9 @@ pub fn c16_get_vs_swap() {
     let i: usize = any();
     assume(i <= 1);
     let g = l.get(i);
-    let at = unsafe { FIRED_AT };
+    let at = done();
     // linearisable: either the value before or after the swap, consistent with the order of critical sections
-    if at == 20 {
+    if at == 20 || at == 1 && BEFORE_LOCK_1 {
         assert!(g == Some(m[1 - i]), "swap completed before lookup but old element returned");
     } else if at == 0 {
         assert!(g == Some(m[i]));
@@ -198,7 +230,7 @@ pub fn c16_get_vs_swap() {
         // both are admissible values of the list, anything else is a torn/stale read
         assert!(g == Some(m[i]) || g == Some(m[1 - i]), "torn read");
     }
-    cover!(at == 1, "preempted_in_window");
+    cover!(at == 1, "preempted_at_site_1");
     teardown(l);
 }
 
@@ -209,14 +241,90 @@ pub fn c16_get_vs_swap() {
 pub fn c16_get_vs_clone_drop() {
     let (l, m) = setup(other_clone_drop, 1);
     let g = l.get(0);
+    let at = done();
     assert!(g == Some(m[0]));
-    cover!(unsafe { FIRED_AT } == 1, "preempted_in_window");
+    cover!(at == 1, "preempted_at_site_1");
     teardown(l);
 }
 
+/// 1032-byte element: `compute_capacity` starts such lists at capacity 1, so the *second* push already reallocates
+/// (1 -> 2). This keeps the relocation schedule within CBMC's reach on the repaired tree.
+#[derive(Clone, Copy, PartialEq)]
+pub struct Big(pub [u64; 129]);
+
+static mut SHARED_BIG: Option<List<roto::Val<Big>>> = None;
+
+fn other_push1_big(site: u32) {
+    unsafe {
+        if FIRED_AT != 0 || site != ONLY_SITE {
+            return;
+        }
+        let fire: bool = any();
+        if !fire {
+            return;
+        }
+        FIRED_AT = site;
+        let l = (*std::ptr::addr_of!(SHARED_BIG)).as_ref().unwrap();
+        l.push(roto::Val(Big([0x7777; 129])));
+    }
+}
+
+macro_rules! big_get_vs_push {
+    ($name:ident, $site:expr, $ffi:expr) => {
+        #[cfg_attr(kani, kani::proof)]
+        #[cfg_attr(kani, kani::unwind(4))]
+        #[cfg_attr(kani, kani::stub(std::sync::Mutex::lock, crate::stubs::mutex_lock_stub))]
+        pub fn $name() {
+            let l: List<roto::Val<Big>> = List::new();
+            let x: u64 = any();
+            let mut e = Big([0; 129]);
+            e.0[0] = x;
+            e.0[128] = !x;
+            l.push(roto::Val(e));
+            assert!(l.capacity() == 1);
+            unsafe {
+                FIRED_AT = 0;
+                ONLY_SITE = $site;
+                SHARED_BIG = Some(l.clone());
+                YIELD_HOOK = Some(other_push1_big);
+            }
+            if $ffi {
+                let mut slot = std::mem::MaybeUninit::<RotoOption<roto::Val<Big>>>::uninit();
+                unsafe { list_verif::list_get(slot.as_mut_ptr() as *mut u8, &l, 0) };
+                let at = done();
+                let p = slot.as_ptr() as *const u8;
+                unsafe {
+                    assert!(*p == 0, "in-range get must be Some");
+                    assert!(std::ptr::read(p.add(8) as *const u64) == x, "wrong element (first word)");
+                    assert!(std::ptr::read(p.add(8 + 128 * 8) as *const u64) == !x, "wrong element (last word)");
+                }
+                cover!(at == $site, "preempted");
+            } else {
+                let g = l.get(0);
+                let at = done();
+                match g {
+                    Some(v) => assert!(v.0.0[0] == x && v.0.0[128] == !x, "get(0) returned something else than the stored element"),
+                    None => assert!(false, "get(0) on a non-empty list"),
+                }
+                cover!(at == $site, "preempted");
+                cover!(at == $site && l.capacity() > 1, "relocated_during_get");
+            }
+            unsafe {
+                let s = (*std::ptr::addr_of_mut!(SHARED_BIG)).take();
+                std::mem::forget(s);
+            }
+            std::mem::forget(l);
+        }
+    };
+}
+big_get_vs_push!(c16_big_get_vs_push_realloc, 1, false);
+big_get_vs_push!(c16_big_ffi_get_vs_push_realloc, 11, true);
+
 crate::list![
-    c16_get_vs_push4_realloc,
-    c16_ffi_get_vs_push4_realloc,
+    c16_big_get_vs_push_realloc,
+    c16_big_ffi_get_vs_push_realloc,
+    c16_get_vs_push4_realloc_site1,
+    c16_ffi_get_vs_push4_realloc_site11,
     c16_get_vs_push1_linearizable,
     c16_push_vs_push4,
     c16_get_vs_swap,
